@@ -57,6 +57,7 @@ type Report struct {
 	Assumes []string
 	Trusted []string
 	NotDec  []string
+	Remap   func(rule string) string `json:"-"` // lets one property reuse another's rule functions under its own rule ids
 }
 
 func NewReport(prop, tier string, seed int64) *Report {
@@ -65,6 +66,9 @@ func NewReport(prop, tier string, seed int64) *Report {
 
 // Rule declares a rule with its statement and the minimum number of instances confirmed by hand.
 func (r *Report) Rule(rule, statement string, min int) {
+	if r.Remap != nil {
+		rule = r.Remap(rule)
+	}
 	if _, ok := r.Rules[rule]; !ok {
 		r.Rules[rule] = &RuleInfo{Rule: rule, Statement: statement, Min: min}
 		r.rorder = append(r.rorder, rule)
@@ -72,6 +76,9 @@ func (r *Report) Rule(rule, statement string, min int) {
 }
 
 func (r *Report) add(rule, key, pos string, v Verdict, nontrivial bool, detail string) *Obligation {
+	if r.Remap != nil {
+		rule = r.Remap(rule)
+	}
 	if _, ok := r.Rules[rule]; !ok {
 		panic("obligation for undeclared rule " + rule)
 	}
